@@ -132,7 +132,12 @@ def judge(st, gi, n, X, cfg, tag='native', keep=None):
                      x=X[c].tolist(), got=float(got[c]), expected=float(best[c]), **base)
     if len(sub) > 3:
         st.viol_count[f'suboptimal/{"L" if g.head_left else "R"}/{g.name.split(".")[0]}'] += len(sub) - 3
-    ff = np.nonzero(judged & (status == 1) & np.isfinite(best))[0]
+    exists = np.isfinite(best)
+    if M.shape[0]:
+        # a derivation that uses an entry at minus infinity is still a derivation the grammar licenses over the admitted tags
+        ok = np.ones((X.shape[0], M.shape[0]), dtype=bool) if adm is None else ~(((~adm).astype(np.float64) @ Mt.T) > 0)
+        exists = exists | (ok.any(axis=1) & np.isneginf(X.astype(np.float64)).any(axis=1))
+    ff = np.nonzero(judged & (status == 1) & exists)[0]
     for c in ff[:3]:
         st.violation(f'false_failure/{g.name}', f'reported failed but a derivation with score {best[c]} exists', x=X[c].tolist(), expected=float(best[c]), **base)
     mv = np.nonzero(mono > 0)[0]
